@@ -104,10 +104,15 @@ def _collect_terms(exprs, ints, reals, limit=20000, pos=None):
 
 def _mentions_J(t, JID):
     stack = [t]
+    seen = set()
     while stack:
         x = stack.pop()
-        if x.get_id() == JID:
+        xid = x.get_id()
+        if xid == JID:
             return True
+        if xid in seen:
+            continue
+        seen.add(xid)
         stack.extend(x.children())
     return False
 
@@ -164,7 +169,7 @@ def _forall_pattern(fa):
     return pats
 
 
-def _instantiate(foralls, ints, reals, done, out, budget, pos=None):
+def _instantiate(foralls, ints, reals, done, out, budget, pos=None, cache=None):
     """Instantiate each Forall at the candidate terms that occupy a matching argument
     position (E-matching on (function, position)); returns new nested Foralls."""
     nested = []
@@ -197,8 +202,9 @@ def _instantiate(foralls, ints, reals, done, out, budget, pos=None):
             total *= len(p)
         if total == 0:
             continue
-        if total > budget[0]:
-            cap = max(2, int(budget[0] ** (1.0 / max(1, len(pools)))))
+        lim = min(budget[0], 600 if len(pools) > 1 else 200)
+        if total > lim:
+            cap = max(2, int(lim ** (1.0 / max(1, len(pools)))))
             pools = [p[:cap] for p in pools]
         for tup in itertools.product(*pools):
             key = (id(fa), tuple(t.get_id() for t in tup))
@@ -208,6 +214,11 @@ def _instantiate(foralls, ints, reals, done, out, budget, pos=None):
             budget[0] -= 1
             if budget[0] <= 0:
                 return nested
+            if cache is not None and key in cache:
+                forms, nest = cache[key]
+                out.extend(forms)
+                nested.extend(nest)
+                continue
             ks = [Sc(t) for t in tup]
             g = True
             for r, k in zip(fa.ranges, ks):
@@ -218,14 +229,19 @@ def _instantiate(foralls, ints, reals, done, out, budget, pos=None):
                 body = fa.body(*ks)
             except Unsupported:
                 continue
+            forms, nest = [], []
             for x in flatten(body):
                 if isinstance(x, Forall):
                     b2 = x.body
-                    nested.append(Forall(x.ranges, (lambda b2, g: lambda *a: _guarded(g, b2(*a)))(b2, g), x.name))
+                    nest.append(Forall(x.ranges, (lambda b2, g: lambda *a: _guarded(g, b2(*a)))(b2, g), x.name, x.lazy))
                 elif x is True:
                     continue
                 else:
-                    out.append(to_z3(implies(g, x), 'bool'))
+                    forms.append(to_z3(implies(g, x), 'bool'))
+            if cache is not None:
+                cache[key] = (forms, nest)
+            out.extend(forms)
+            nested.extend(nest)
     return nested
 
 
@@ -234,43 +250,63 @@ def _guarded(g, f):
     for x in flatten(f):
         if isinstance(x, Forall):
             b = x.body
-            res.append(Forall(x.ranges, (lambda b: lambda *a: _guarded(g, b(*a)))(b), x.name))
+            res.append(Forall(x.ranges, (lambda b: lambda *a: _guarded(g, b(*a)))(b), x.name, x.lazy))
         else:
             res.append(implies(g, x))
     return res
 
 
-def sum_axioms(terms, pairwise, known=None, have=None):
-    """Sound facts about the sum atoms occurring in `terms` (rules R1, R3 of DESIGN.md):
+class AxiomStore(object):
+    """Sum axioms (rules R1/R3) generated once per atom / pair and reused across stages."""
+
+    def __init__(self):
+        self.sign = {}      # atom const id -> list of axioms
+        self.pair = {}      # (id1, id2) -> axiom
+
+    def sign_axioms(self, a):
+        k = a.const.get_id()
+        if k not in self.sign:
+            j = fresh_int('wit')
+            b = a.at(j)
+            zero = z3.RealVal(0) if z3.is_real(b) else z3.IntVal(0)
+            j2 = fresh_int('wit')
+            self.sign[k] = [z3.Implies(a.const < zero, z3.And(j >= 0, j < a.n, b < zero)),
+                            z3.Implies(a.const > zero, z3.And(j2 >= 0, j2 < a.n, a.at(j2) > zero)),
+                            z3.Implies(a.n <= 0, a.const == zero)]
+        return self.sign[k]
+
+    def pair_axiom(self, a1, a2):
+        k = (a1.const.get_id(), a2.const.get_id())
+        if k not in self.pair:
+            j = fresh_int('wit')
+            same = a1.n.eq(a2.n)
+            prem = a1.const < a2.const if same else z3.And(a1.n == a2.n, a1.const < a2.const)
+            self.pair[k] = z3.Implies(prem, z3.And(j >= 0, j < a1.n, a1.at(j) < a2.at(j)))
+        return self.pair[k]
+
+
+def sum_axioms(store, core_terms, all_terms, pairwise, wide):
+    """Sound facts about sum atoms (rules R1, R3 of DESIGN.md):
       sign:  S < 0  =>  body(j*) < 0 for a witness 0 <= j* < n   (and S > 0 likewise)
-      pair:  S1 < S2 => body1(j*) < body2(j*) for a witness       (same range only)
-    """
-    atoms = SUMS.atoms_in(terms)
-    if known is not None and len(atoms) == len(known):
-        return have, known
+      pair:  S1 < S2 => body1(j*) < body2(j*) for a witness
+    core atoms occur in the goal / ground hypotheses; `wide` extends sign axioms to the
+    atoms that only occur in instantiated hypotheses.  Pair axioms always involve at
+    least one atom of the goal."""
+    core = SUMS.atoms_in(core_terms)
+    every = SUMS.atoms_in(all_terms) if (wide or pairwise) else core
     ax = []
-    for a in atoms:
-        j = fresh_int('wit')
-        inr = z3.And(j >= 0, j < a.n)
-        b = a.at(j)
-        zero = z3.RealVal(0) if z3.is_real(b) else z3.IntVal(0)
-        ax.append(z3.Implies(a.const < zero, z3.And(inr, b < zero)))
-        j2 = fresh_int('wit')
-        ax.append(z3.Implies(a.const > zero, z3.And(j2 >= 0, j2 < a.n, a.at(j2) > zero)))
-        ax.append(z3.Implies(a.n <= 0, a.const == zero))
+    for a in (every if wide else core):
+        ax.extend(store.sign_axioms(a))
     if pairwise:
-        groups = {}
-        for a in atoms:
-            groups.setdefault(a.n.sexpr(), []).append(a)
-        for g in groups.values():
-            if len(g) > 12:
-                g = g[:12]
-            for a1, a2 in itertools.permutations(g, 2):
-                if z3.is_real(a1.body) != z3.is_real(a2.body):
+        goal_atoms = core[:10]
+        others = every[:24]
+        for a1 in goal_atoms:
+            for a2 in others:
+                if a1 is a2 or z3.is_real(a1.body) != z3.is_real(a2.body):
                     continue
-                j = fresh_int('wit')
-                ax.append(z3.Implies(a1.const < a2.const, z3.And(j >= 0, j < a1.n, a1.at(j) < a2.at(j))))
-    return ax, atoms
+                ax.append(store.pair_axiom(a1, a2))
+                ax.append(store.pair_axiom(a2, a1))
+    return ax, len(every)
 
 
 def prove(ob, timeout_ms=20000, global_axioms=(), want_model=False):
@@ -312,37 +348,85 @@ def prove(ob, timeout_ms=20000, global_axioms=(), want_model=False):
     return Result(ob.name, worst, time.time() - t0, detail=detail, model=model_txt, kind=ob.kind, nsub=nsub)
 
 
+STAGES = (
+    # (terms of ground hyps, rounds, pairwise, unfold definitional axioms, wide sign axioms, timeout fraction)
+    (False, 1, False, False, False, 0.15),
+    (True, 2, False, False, False, 0.3),
+    (True, 2, False, True, True, 0.5),
+    (True, 3, True, True, True, 1.0),
+)
+
+Z3_BIN = _os.environ.get('SEDVC_Z3', 'z3-new')
+
+
+def run_z3(smt2, timeout_ms, want_model=False):
+    """Run the query in a separate z3 process (hard timeout).  Returns (status, model text)."""
+    import subprocess
+    import tempfile
+    text = smt2
+    if want_model:
+        text = text + "\n(get-model)\n"
+    with tempfile.NamedTemporaryFile('w', suffix='.smt2', delete=False, dir=_os.environ.get('TMPDIR') or '/var/tmp') as f:
+        f.write(text)
+        path = f.name
+    try:
+        try:
+            p = subprocess.run([Z3_BIN, '-T:%d' % max(1, int(timeout_ms / 1000) + 1), 'smt.random_seed=%s' % _os.environ.get('VERIF_SEED', '0'), path],
+                               capture_output=True, text=True, timeout=timeout_ms / 1000.0 + 5)
+            out = p.stdout
+        except subprocess.TimeoutExpired:
+            return 'unknown', 'hard timeout'
+        except FileNotFoundError:
+            return None, None
+    finally:
+        try:
+            _os.unlink(path)
+        except OSError:
+            pass
+    first = out.strip().split('\n')[0].strip() if out.strip() else ''
+    if first == 'unsat':
+        return 'unsat', None
+    if first == 'sat':
+        return 'sat', out[3:][:4000] if want_model else None
+    return 'unknown', out[:200]
+
+
 def _prove_one(ground, foralls, guards, goal, timeout_ms, want_model):
-    for attempt, pairwise in enumerate((False, True)):
+    last = ('unknown', 'unknown', None)
+    store = AxiomStore()
+    inst_cache = {}
+    core = list(ground) + list(guards) + [goal]
+    for stage, (use_ground_terms, max_rounds, pairwise, unfold, wide, tfrac) in enumerate(STAGES):
+        final = stage == len(STAGES) - 1
         base = list(ground) + list(guards)
+        if stage == 2 and not any(f.lazy for f in foralls):
+            continue        # nothing new to unfold
         ints, reals, pos = {}, {}, {}
         _collect_terms([goal] + list(guards), ints, reals, pos=pos)
-        _collect_terms(ground, ints, reals, pos=pos)
+        if use_ground_terms:
+            _collect_terms(ground, ints, reals, pos=pos)
         inst = []
         done = set()
-        budget = [MAX_INST]
-        pending = list(foralls)
-        # sum axioms on what we have so far (their witnesses become index terms)
-        ax, atoms = sum_axioms(base + [goal], pairwise)
+        budget = [MAX_INST if final else 1500]
+        ax, natoms = sum_axioms(store, core, core, pairwise, wide)
         _collect_terms(ax, ints, reals, pos=pos)
         rounds = 0
-        all_foralls = list(pending)
-        while rounds < 3:
+        all_foralls = [f for f in foralls if unfold or not f.lazy]
+        while rounds < max_rounds:
             rounds += 1
             before = len(inst)
-            nested = _instantiate(all_foralls, ints, reals, done, inst, budget, pos=pos)
+            nested = _instantiate(all_foralls, ints, reals, done, inst, budget, pos=pos, cache=inst_cache)
             all_foralls.extend(nested)
             n_before = len(ints)
             _collect_terms(inst[before:], ints, reals, pos=pos)
-            # atoms may appear in instantiated hypotheses
-            ax2, atoms2 = sum_axioms(base + [goal] + inst, pairwise, known=atoms, have=ax)
-            if len(atoms2) > len(atoms):
-                ax, atoms = ax2, atoms2
-                _collect_terms(ax, ints, reals, pos=pos)
+            if wide or pairwise:
+                ax2, natoms2 = sum_axioms(store, core, core + inst, pairwise, wide)
+                if natoms2 > natoms:
+                    ax, natoms = ax2, natoms2
+                    _collect_terms(ax, ints, reals, pos=pos)
             if len(ints) == n_before and not nested and len(inst) == before:
                 break
         s = z3.Solver()
-        s.set('timeout', timeout_ms)
         for f in base:
             s.add(f)
         for f in inst:
@@ -350,29 +434,60 @@ def _prove_one(ground, foralls, guards, goal, timeout_ms, want_model):
         for f in ax:
             s.add(f)
         s.add(z3.Not(goal))
+        smt2 = s.to_smt2()
         if DUMP_DIR:
-            import os
-            os.makedirs(DUMP_DIR, exist_ok=True)
-            with open(os.path.join(DUMP_DIR, 'q%04d_%d.smt2' % (next(_dump_counter), attempt)), 'w') as fdump:
-                fdump.write(s.to_smt2())
-        r = s.check()
-        if r == z3.unsat:
-            return 'proved', None, None
-        if r == z3.sat:
-            if attempt == 0 and SUMS.atoms_in(base + [goal] + inst):
-                continue       # retry with pairwise extensionality
+            _os.makedirs(DUMP_DIR, exist_ok=True)
+            with open(_os.path.join(DUMP_DIR, 'q%04d_%d.smt2' % (next(_dump_counter), stage)), 'w') as fdump:
+                fdump.write(smt2)
+        tmo = max(2000, int(timeout_ms * tfrac))
+        # first the real relaxation with functions abstracted (pure QF_NRA -> nlsat); only an
+        # `unsat` answer of the relaxed query is used (see relax.py)
+        if _nonlinear(s.assertions()):
+            try:
+                from .relax import relax
+                rs = z3.Solver()
+                for f in relax(list(s.assertions())):
+                    rs.add(f)
+                rr, _ = run_z3(rs.to_smt2(), min(tmo, 10000))
+                if rr == 'unsat':
+                    return 'proved', 'nlsat on the real relaxation', None
+            except Exception:
+                pass
+        r, m = run_z3(smt2, tmo, want_model=(want_model and final))
+        if r is None:       # no CLI available: in-process
+            s.set('timeout', tmo)
+            rr = s.check()
+            r = str(rr)
             m = None
-            if want_model:
-                try:
-                    m = str(s.model())[:4000]
-                except Exception:
-                    m = None
+        if r == 'unsat':
+            return 'proved', None, None
+        if r == 'sat':
+            if not final:
+                continue
             return 'refuted', 'sat: the negated obligation is satisfiable', m
-        reason = s.reason_unknown()
-        if attempt == 0:
+        last = ('unknown', 'unknown: %s' % (m or 'timeout'), None)
+    return last
+
+
+def _nonlinear(assertions):
+    seen = set()
+    stack = list(assertions)
+    while stack:
+        t = stack.pop()
+        tid = t.get_id()
+        if tid in seen:
             continue
-        return 'unknown', 'unknown: %s' % reason, None
-    return 'unknown', 'unknown', None
+        seen.add(tid)
+        if z3.is_app(t):
+            k = t.decl().kind()
+            if k == z3.Z3_OP_MUL:
+                if sum(1 for c in t.children() if not (z3.is_int_value(c) or z3.is_rational_value(c))) >= 2:
+                    return True
+            elif k in (z3.Z3_OP_DIV, z3.Z3_OP_POWER):
+                if not (z3.is_int_value(t.children()[1]) or z3.is_rational_value(t.children()[1])):
+                    return True
+            stack.extend(t.children())
+    return False
 
 
 def _trim(ints, goal):
